@@ -90,6 +90,7 @@ Definition find_root (f : T -> T) (xLeft xRight acc : T) : res T :=
 (** ** Inv_Erf (Special_Functions.cpp) *)
 Definition inv_erf (p : T) : res T :=
   if nltb Ops (nabs Ops (p - c1)%num) (nlit Ops 1 10000000000000000 2028240960365167 (-104)) then Ok (nofZ Ops 10)
+  else if nltb Ops (nabs Ops (p + c1)%num) (nlit Ops 1 10000000000000000 2028240960365167 (-104)) then Ok (nneg Ops (nofZ Ops 10))
   else if ngeb Ops (nabs Ops p) c1 then Exit
   else find_root (fun x => (nerf Ops x - p)%num) (nneg Ops (nofZ Ops 10)) (nofZ Ops 10) (ndec Ops 1 10000).
 
